@@ -359,6 +359,14 @@ def run(p: Program, rep: Report, tier: str) -> None:
             rep.violation("R6.4", construct(push, text=f"{len(item_puts)} item puts / {len(pulls)} pulls"), where(push), f"{side}: items are pulled or handed off at more than one place (order/duplication not guaranteed)")
         gets = [n for n in ast.walk(rs.node) if isinstance(n, ast.Assign) and isinstance(n.targets[0], ast.Name) and f"{qname}.get(" in ast.unparse(n.value) and not any(_in(n, t.finalbody) for t in fins)]
         if len(gets) == 1:
+            # a dequeue that is given up on a timeout (the ping) must really be given up: `wait_for(q.get(), t)` cancels the getter;
+            # `wait_for(shield(q.get()), t)` or a getter task polled with `asyncio.wait(..., timeout=t)` leaves it queued in front,
+            # where it swallows the next event
+            for c_ in ast.walk(gets[0].value):
+                if isinstance(c_, ast.Call) and ast.unparse(c_.func).split(".")[-1] in ("shield", "ensure_future", "create_task") and f"{qname}.get(" in ast.unparse(c_):
+                    rep.violation("R6.4", construct(rs, text=f"dequeue kept alive by {ast.unparse(c_.func)}"), where(rs, c_),
+                                  f"{side}: the dequeue is wrapped in {ast.unparse(c_.func)}(...): when the ping timeout fires the pending {qname}.get() stays queued and takes the NEXT event, "
+                                  "which is then delivered to nobody (one event lost per ping)", positive=True)
             ev = gets[0].targets[0].id
             par = gets[0]._parent  # type: ignore[attr-defined]
             body = par.body if hasattr(par, "body") and gets[0] in par.body else []
